@@ -43,6 +43,16 @@ PROPS["C16"] = {
     "assumptions": ["scores are unconstrained integers (accepted matches can have negative score at high error rates)"],
 }
 
+PROPS["C09"] = {
+    "level": "proof",
+    "text": "Loop-invariant proof that MultipleAdapters.match_to returns the match of the first adapter maximising (score, -errors); "
+            "proof of the rounds loop of AdapterCutter.match_and_trim (each round searches what the previous one left; non-trim actions "
+            "applied once to the original read over the remainder interval); truth-table proof of LinkedAdapter.match_to.",
+    "note": "Trusted: each adapter's match_to is a deterministic function of (adapter, string) satisfying the abstract Matchable "
+            "contract (proved per class under C01/C08); linked parts are 5'/3' single adapters (parser, C18).",
+    "assumptions": ["the index (IndexedPrefix/SuffixAdapters) is one Matchable among the others, as the statement excludes it"],
+}
+
 _PENDING = "check not built yet in this revision (see DESIGN.md section 7 for the build order)"
 NOT_APPLICABLE = {
     "C12": "quantifies over fault sequences, crash points and schedules and contains a liveness clause; malformed-input detection "
